@@ -118,6 +118,9 @@ func (d *driver) amount(max *big.Int) (raw string, wf bool) {
 		return fmt.Sprintf("%s.%06d1", q, r.Int64()), false
 	case 6:
 		return "NaN", false
+	case 8: // seven decimal places, the excess digit is zero
+		q, r := new(big.Int).QuoRem(base, micro, new(big.Int))
+		return fmt.Sprintf("%s.%06d0", q, r.Int64()), false
 	case 7:
 		return "1e-7", false
 	}
